@@ -57,14 +57,22 @@ func gHP(h sk.HostPort) string {
 }
 
 func gPod(p sk.PodDump) string {
-	return fmt.Sprintf("(mkPod %s %s %s %s %s %s %s %s %s %s %s %s %s)", gs(p.Key),
+	return fmt.Sprintf("(mkPod %s %s %s %s %s %s %s %s %s %s)", gs(p.Key),
 		kit.GListOf(p.Sel, func(kv [2]string) string { return kit.GPair(gs(kv[0]), gs(kv[1])) }),
 		kit.GListOf(p.Req, gTerm),
 		kit.GListOf(p.Pref, func(w sk.WTerm) string { return kit.GPair(kit.GZ(int64(w.Weight)), gTerm(w.Term)) }),
 		kit.GListOf(p.PAff, func(w sk.WID) string { return kit.GPair(kit.GZ(int64(w.Weight)), gs(w.ID)) }),
 		kit.GListOf(p.PAnti, func(w sk.WID) string { return kit.GPair(kit.GZ(int64(w.Weight)), gs(w.ID)) }),
 		kit.GListOf(p.TSC, func(c sk.TSC) string { return kit.GPair(gs(c.ID), kit.GBool(c.Anyway)) }),
-		kit.GListOf(p.Tols, gTol), kit.GListOf(p.Ports, gHP), gRL(p.Requests),
+		kit.GListOf(p.Tols, gTol), kit.GListOf(p.Ports, gHP), gRL(p.Requests))
+}
+
+// gVPod: the pod together with its volume inputs (vinfo).
+func gVPod(p sk.PodDump) string {
+	if len(p.Vols) == 0 && len(p.VAlts) == 0 && len(p.VolTerms) == 0 {
+		return "(" + gPod(p) + ", vi0)"
+	}
+	return fmt.Sprintf("(%s, mkVI %s %s %s)", gPod(p),
 		kit.GListOf(p.Vols, func(v [2]string) string { return kit.GPair(gs(v[0]), gs(v[1])) }),
 		kit.GListOf(p.VAlts, gReqs),
 		kit.GListOf(p.VolTerms, func(ts []sk.Term) string { return kit.GListOf(ts, gTerm) }))
